@@ -526,6 +526,12 @@ fn engine_location() -> bolero::TargetLocation {
 fn run_exhaustive(case: &Value) -> Value {
     OUTCOMES.lock().unwrap().clear();
     let text = case.to_string();
+    // the pending input as the hooks see it (keyed maps in iteration order)
+    let before = if case["hooks"].is_array() {
+        Value::Array(build_tick(&case["hooks"]).obs.iter().map(snapshot).collect())
+    } else {
+        snapshot(&build(&case["hook"]).obs)
+    };
     bolero::test(engine_location()).exhaustive().run_with_replay(move |_is_replay| {
         let case: Value = serde_json::from_str(&text).unwrap();
         let out = catch_unwind(AssertUnwindSafe(|| {
@@ -566,7 +572,7 @@ fn run_exhaustive(case: &Value) -> Value {
     let all = OUTCOMES.lock().unwrap().clone();
     let distinct: BTreeSet<String> = all.iter().cloned().collect();
     let outcomes: Vec<Value> = distinct.iter().map(|s| serde_json::from_str(s).unwrap()).collect();
-    json!({ "executions": all.len(), "distinct": distinct.len(), "outcomes": outcomes })
+    json!({ "before": before, "executions": all.len(), "distinct": distinct.len(), "outcomes": outcomes })
 }
 
 /// C38: the real byte-slice driver (as in `CompiledSim::fuzz_repro`) replays `bytes` on a hook
